@@ -296,7 +296,8 @@ def validate_sigkill(n, p, hist, res, bad_factory, stride=1):
 
 # ------------------------------------------------------------------ part B: history replay
 
-OPS_B = ["add:a", "add:b", "add:c", "addfail", "close", "reopen:same", "reopen:chdir", "reopen:rel", "export:chdir", "clear", "query"]
+OPS_B = ["add:a", "add:b", "add:c", "addfail", "close", "reopen:same", "reopen:chdir", "reopen:rel", "export:chdir", "export:self",
+         "clear", "query"]
 
 
 def replay_histories(depth, ops=None):
@@ -417,6 +418,13 @@ def run_replay_history(n, p, mode, hist, props, bad, strat="fnv"):
                         if f.elements_added != len(done):
                             bad("C11", "disk.reopen_keeps_count", {**where, "obs": f.elements_added, "expected": len(done)})
                             bad("C14", "disk.reopen_keeps_count", {**where, "obs": f.elements_added, "expected": len(done)})
+                elif op == "export:self":
+                    # exporting onto its own file is documented as "nothing to do": it must not damage the file
+                    before = read_file(path)
+                    f.export(path)
+                    if final and (read_file(path)[:-FOOT.size] != before[:-FOOT.size] or len(read_file(path)) != len(before)):
+                        bad("C11", "disk.export_onto_itself_keeps_file", {**where})
+                        bad("C05", "disk.export_onto_itself_keeps_file", {**where})
                 elif op == "export:chdir":
                     os.chdir(away)
                     dest = os.path.join(away, "exported.blm")
